@@ -566,6 +566,38 @@ var amplifiers = []struct {
 		}
 		return b.String()
 	}},
+	{"call-cycle", 72, func(n int) string {
+		// a call graph with a cycle of length n (n = 1: a function that calls itself): WGSL forbids it, so the
+		// answer is an error from some stage - but every pass that walks callees must terminate
+		var b strings.Builder
+		b.WriteString("@group(0) @binding(0) var<storage, read_write> o: i32;\nvar<private> p: i32;\nvar<workgroup> w: i32;\n")
+		if n%2 == 0 {
+			// n functions that each call themselves, all reached from the entry point
+			for i := 0; i < n; i++ {
+				fmt.Fprintf(&b, "fn fq%d(k: i32) -> i32 { if k <= 0 { return p + w; } p += 1; return fq%d(k - 1) + 1; }\n", i, i)
+			}
+			b.WriteString("@compute @workgroup_size(1) fn main() { o = 0")
+			for i := 0; i < n; i++ {
+				fmt.Fprintf(&b, " + fq%d(3)", i)
+			}
+			b.WriteString("; }\n")
+			return b.String()
+		}
+		for i := 0; i < n; i++ {
+			fmt.Fprintf(&b, "fn fq%d(k: i32) -> i32 { if k <= 0 { return p + w; } p += 1; return fq%d(k - 1) + 1; }\n", i, (i+1)%n)
+		}
+		b.WriteString("@compute @workgroup_size(1) fn main() { o = fq0(3); }\n")
+		return b.String()
+	}},
+	{"call-cycle-void", 40, func(n int) string {
+		var b strings.Builder
+		b.WriteString("@group(0) @binding(0) var<storage, read_write> o: i32;\n")
+		for i := 0; i < n; i++ {
+			fmt.Fprintf(&b, "fn fq%d() { if o > 0 { o -= 1; fq%d(); } }\n", i, (i+1)%n)
+		}
+		b.WriteString("@fragment fn main() -> @location(0) vec4<f32> { fq0(); return vec4<f32>(f32(o)); }\n")
+		return b.String()
+	}},
 	{"call-diamond", 48, func(n int) string {
 		// every helper calls the previous one twice: 2^n paths through a graph of n nodes
 		var b strings.Builder
